@@ -292,8 +292,9 @@ func judgeC17(rc *RunCtx, a, clean *CheckRun, nFiles int, allVersionKinds bool) 
 			lines++
 		}
 	}
-	if lines != nFiles {
-		rc.V(viol("C17.R3", fmt.Sprintf("log-lines=%d-files=%d", lines, nFiles), "%d unusable fail files but %d log lines before the first random test case: %s", nFiles, lines, oneLine(tbLogs(a), 400)))
+	if lines < nFiles {
+		// (more lines than files is fine: the property asks for a log line per ignored file, not for silence otherwise)
+		rc.V(viol("C17.R3", fmt.Sprintf("log-lines=%d-files=%d", lines, nFiles), "%d unusable fail files but only %d log lines before the first random test case: %s", nFiles, lines, oneLine(tbLogs(a), 400)))
 	}
 	rc.Inc("probe.differential_compared")
 	_ = time.Second
